@@ -47,12 +47,13 @@ def Cluster.copy (c : Cluster) (i : Nat) (kind : Kind) (dm : Bytes) (k : Key) : 
 def updFrags (fs : Frags) (dm : Bytes) (k : Key) (v : Option Copy) : Frags :=
   fun d x => if d = dm ∧ x = k then v else fs d x
 
-def Cluster.setCopy (c : Cluster) (i : Nat) (kind : Kind) (dm : Bytes) (k : Key) (v : Option Copy) : Cluster :=
+@[noinline] def Cluster.setCopy (c : Cluster) (i : Nat) (kind : Kind) (dm : Bytes) (k : Key) (v : Option Copy) : Cluster :=
   fun j =>
     if j = i then
+      let n := c i      -- evaluated once (the compiled model would otherwise evaluate `c i` twice per level)
       match kind with
-      | .prim => { c i with prim := updFrags (c i).prim dm k v }
-      | .bak => { c i with bak := updFrags (c i).bak dm k v }
+      | .prim => { n with prim := updFrags n.prim dm k v }
+      | .bak => { n with bak := updFrags n.bak dm k v }
     else c j
 
 /-- the owners of the key's partition as the executing member sees them: primary owners (previous
@@ -273,5 +274,23 @@ def lease (cfg : Cfg) (r : Route) (reach : Reach) (c : Cluster) (dm : Bytes) (k 
 def destroy (c : Cluster) (dm : Bytes) : Cluster :=
   fun i => { prim := fun d k => if d = dm then none else (c i).prim d k,
              bak := fun d k => if d = dm then none else (c i).bak d k }
+
+/-! ### fragment hand-over: mergeFragments / fragmentMergeFunction -/
+
+/-- fragmentMergeFunction: the record that survives when `inc` is merged onto `cur`
+    (`sortVersions [current, incoming]`: the incoming one moves in front when its timestamp is ≥) -/
+def lwwC (cur : Option Copy) (inc : Copy) : Copy :=
+  match cur with
+  | none => inc
+  | some c => if inc.ts ≥ c.ts then inc else c
+
+/-- mergeFragments: every entry of a received table is merged onto the receiver's fragment.
+    (Returns a pair, like the Go function returns an error: a definition whose result type is the
+    function type `Cluster` is compiled eta-expanded and would redo the merge on every later lookup.) -/
+def mergeEntries (c : Cluster) (m : Nat) (kind : Kind) (dm : Bytes) : List (Key × Copy) → Cluster × Res
+  | [] => (c, .ok)
+  | e :: l =>
+    let w := lwwC (c.copy m kind dm e.1) e.2
+    mergeEntries (c.setCopy m kind dm e.1 (some w)) m kind dm l
 
 end Olric.DMap
